@@ -152,6 +152,24 @@ func c02History(r *hx.Run, w *W, rnd *rand.Rand, hi int, epochs []c02Epoch) {
 			r.Add("waiter_client_aborts", 1)
 		}
 		_ = aborted
+		if ep.Variant == "clock_jump_during_fetch" {
+			// the fetch takes "two minutes" of cache time; one more request arrives after the jump
+			w.Clock.Advance(120)
+			regBefore := w.Pts.Count("get.registered")
+			results = append(results, nil)
+			li := len(results) - 1
+			wg.Add(1)
+			go func() {
+				defer wg.Done()
+				q := rq
+				q.Proc = 99
+				results[li] = w.Cl.Do(q)
+			}()
+			hx.WaitUntil(5*time.Second, func() bool {
+				return w.Pts.Count("get.registered") > regBefore || w.Farm.InflightKey(key) >= 2
+			})
+			r.Add("late_arrivals_after_clock_jump_during_fetch", 1)
+		}
 		if ep.Variant == "evicted_during_fetch" {
 			// the fetching entry is pushed out of its (2-entry) shard while waiters hold on to it
 			for f := 0; f < 40; f++ {
@@ -326,7 +344,7 @@ func c02(r *hx.Run) {
 	w := newSimpleWorld(r, hx.SimpleCfg{CacheName: "c02", CacheSize: 16, HitForPass: "2s", Timeout: "200ms"}, 1, true)
 	defer w.Farm.Close()
 	w.Pts = hx.InstallPoints(r.Seed)
-	variants := []string{"parked", "held_registered", "held_registered_purge", "late", "waiter_client_abort", "evicted_during_fetch"}
+	variants := []string{"parked", "held_registered", "held_registered_purge", "late", "waiter_client_abort", "evicted_during_fetch", "clock_jump_during_fetch"}
 	hi := 0
 	reps := r.Pick(2, 8)
 	for rep := 0; rep < reps; rep++ {
